@@ -208,7 +208,9 @@ theorem fixDeser_header (ver ds tail : Bytes) (hv : 61 ∉ ver) (hne : ds ≠ []
   cases h35 : find (fixHeader ver ds ++ tail) tag35 0 with
   | none => simp
   | some i =>
-    simp only [hEQ, hSOH, hslice, hparse, ok_bind, hmsg, pure_eq_ok]
+    simp only [hEQ, hSOH, hslice, hparse, ok_bind]
+    rw [if_neg (by omega : ¬ ((digitsVal ds : Int) < 0))]
+    simp only [hmsg, pure_eq_ok]
     by_cases hlt : (fixHeader ver ds ++ tail).length < ver.length + ds.length + 6 + digitsVal ds + 7
     · have : ((fixHeader ver ds ++ tail).length : Int) < ((ver.length + ds.length + 6 + digitsVal ds + 7 : Nat) : Int) := by
         omega
